@@ -77,6 +77,8 @@ int harness_main(void) {
   shape = fmc_param("shape", 0);
   rt_start();
   fiber_mutex_init(&mtx);
+  fmc_focus(&mtx, sizeof mtx);
+  fmc_focus((void*)&cs_var, sizeof cs_var);
   int nf = 0;
   while (nf < 4 && scripts[shape][nf][0]) nf++;
   fiber_t* f[4];
